@@ -3,4 +3,6 @@
 pub mod cells;
 pub mod stacks;
 pub mod util;
+pub mod archive;
 pub mod eng_layers;
+pub mod eng_writer;
